@@ -1077,3 +1077,7 @@ def check(case):
                     fs = res.for_prefix(name)
                     if fs:
                         case.fail(fs[0].stat, fs[0].text() + ('' if len(fs) == 1 else ' (+%d more)' % (len(fs) - 1)))
+
+
+RULE += (' Classes and clauses added in later rounds of the seeded-change protocol (DESIGN 9.4) are named in REQUIRED '
+         'and in seeded/HISTORY.json; the evidence counts every one of them under classes.')
